@@ -52,9 +52,12 @@ End Wrapped.
 (* the epoch classes named by the property, as facts about the epoch text *)
 Theorem epoch_class_nonnumeric c0 r c : In c r -> is_digit c = false -> parse_epoch (c0 :: r) = None.
 Proof. exact (epoch_nonnumeric_tail c0 r c). Qed.
-Theorem epoch_class_negative ds n : dv 0 ds = Some n -> n <> 0%N -> parse_epoch (minus :: ds) = None.
-Proof. exact (epoch_negative ds n). Qed.
-Theorem epoch_class_oversized c r n : is_digit c = true -> dv 0 (c :: r) = Some n -> (max_int64 < n)%N ->
-  parse_epoch (c :: r) = None /\ parse_epoch (plus :: c :: r) = None.
+Theorem epoch_class_any_nondigit x c : In c x -> is_digit c = false -> parse_epoch x = None.
+Proof. exact (epoch_nonnumeric x c). Qed.
+Theorem epoch_class_signed ds : parse_epoch (minus :: ds) = None /\ parse_epoch (plus :: ds) = None.
+Proof. exact (epoch_signed ds). Qed.
+Theorem epoch_class_oversized c r n : dv 0 (c :: r) = Some n -> (max_epoch < n)%N -> parse_epoch (c :: r) = None.
 Proof. exact (epoch_oversized c r n). Qed.
+Theorem epoch_class_accepted c r n : dv 0 (c :: r) = Some n -> (n <= max_epoch)%N -> parse_epoch (c :: r) = Some n.
+Proof. exact (epoch_accepted c r n). Qed.
 Print Assumptions C03u_reject_alphabet.
